@@ -6,7 +6,7 @@ LEAN_MODULES = ["SCP.C14"]
 THEOREMS = ["SCP.C14." + t for t in """toInt_intCast from_unix from_unix_zone from_unix_out_of_range date_as_unix time_as_unix dateTime_as_unix
 unix_round_trip dateTime_round_trip shown_fields raw_print_all_digits at_date_time at_date_hour phrase_to_date phrase_to_zone
 phrase_as_unix""".split()]
-RULE = ("timestamps {0, +-1, +-86399, +-86400, 2^31-1, 2^31, 2^32, first second of year 1, last second of year 9999, around every one of them} + "
+RULE = ("timestamps {0, +-1, +-86399, +-86400, 2^31-1, 2^31, 2^32, first second of year 1, last second of year 9999, around every one of them; within 15 h of the first second of the current and the next year} + "
         "uniform random over years 1..9999 (negative included) x default zone in {UTC, EST, IST(+5:30), NPT(+5:45), GMT+14-like extremes, random "
         "configured zones} x explicit target zone / none x spellings ('N to date', 'N to ZONE', 'N ZONE', 'N date'); the printed date-time is "
         "parsed and compared field by field with Python's datetime of N + 60*offset; '<date> as unix' for the dates of C09's generator; time and "
@@ -36,8 +36,14 @@ def zones():
     return _Z
 
 
+YEAR_EDGES = []
+
+
 def gen_ts(rng):
     k = rng.random()
+    if YEAR_EDGES and k < 0.12:
+        # within 15 hours of the first second of the current / the next year: the shown zone decides whether the year is printed
+        return rng.choice(YEAR_EDGES) + rng.randint(-15 * 3600, 15 * 3600)
     if k < 0.3:
         return rng.choice(SPECIAL) + rng.choice([0, 0, 1, -1, 59, -59, 3600, -3600])
     if k < 0.5:
@@ -80,6 +86,8 @@ def run(ctx, model_ok):
     rng = ctx.rng
     now = C.run_impl([{"op": "now"}])[0]
     this_year = now["ymd"][0]
+    import datetime as _dt
+    YEAR_EDGES[:] = [int((_dt.datetime(y_, 1, 1) - _dt.datetime(1970, 1, 1)).total_seconds()) for y_ in (this_year, this_year + 1)]
     zs = zones()
     named = [z for z in zs if z[0] in ("UTC", "EST", "IST", "NPT", "LINT", "BIT", "CET", "PST", "JST", "ACST")]
     groups = []   # (default zone name or None, list of cases)
